@@ -878,8 +878,10 @@ func c20Run(c *core.C, idx int) {
 		return
 	} else if m := c20OperationalCases(c.Tier); idx-n < m {
 		c20Operational(c, idx-n)
-	} else {
+	} else if fr := c20FileRefCases(c.Tier); idx-n-m < fr {
 		c20FileRef(c, idx-n-m)
+	} else {
+		c20FormatWrite(c, idx-n-m-fr)
 	}
 }
 
@@ -900,10 +902,10 @@ func init() {
 			"ground truth for 'the compiler rejects the workspace' is a direct protocompile run (harness/ref); for 'format found a difference' the harness' own byte comparison of every source with `buf format -o`",
 			"plugins are not exercised (the ' (plugin)' message suffix is modelled in the comparison but no plugin runs)",
 		},
-		Cases: func(tier string) int { return c20WorkspaceCases(tier) + c20OperationalCases(tier) + c20FileRefCases(tier) },
+		Cases: func(tier string) int { return c20WorkspaceCases(tier) + c20OperationalCases(tier) + c20FileRefCases(tier) + c20FormatWriteCases(tier) },
 		Run:   c20Run,
 		Needs: []string{"buf"},
-		Required: []string{"build_nonempty", "build_empty", "lint_nonempty", "lint_empty", "breaking_nonempty", "breaking_empty", "format_diff_cases", "format_nodiff_cases", "format_crlf_cases", "fileref_annotations",
+		Required: []string{"build_nonempty", "build_empty", "lint_nonempty", "lint_empty", "breaking_nonempty", "breaking_empty", "format_diff_cases", "format_nodiff_cases", "format_crlf_cases", "fileref_annotations", "format_write_runs",
 			"compared_text", "compared_msvs", "compared_junit", "compared_github-actions", "compared_line_terminator_github-actions", "compared_line_terminator_junit",
 			"tuples_hostile_path", "tuples_hostile_message", "tuples_without_file", "tuples_line_terminator_in_path",
 			"status_0_runs", "status_100_runs", "status_other_runs", "subprocess_runs", "operational_runs", "lint_plants_reported"},
